@@ -447,3 +447,84 @@ def word_contexts(words, full):
                     if src not in seen:
                         seen.add(src)
                         yield "right-context", src
+
+
+# ---- the inner structure of s-/f-strings (Model/LexerInterp.v vs interpolation::parse, observed through prql_to_pl)
+
+INTERP_ALPHABET = ["a", "_", "1", ".", ":", "{", "}", "`", " "]
+INTERP_FRAGMENTS = INTERP_ALPHABET + ["b", "{{", "}}", "{a}", "{a.b}", "{a:x}", "{a.b:>5}", "{`a b`}", "{`a`.`b`.c}", "{a.}", "{.a}", "{a..b}", "{a:}", "{a:{}", "{a:}}", "{}", "{ a}",
+                                      "{a }", "{1}", "{_}", "{a1_}", "{\u00e9}", "\u00e9", "\u4e2d", "x y", "'", "\\n", "\\\\", "\\u{7b}", "\\x7d", "``", "{``}", "{`{`}", "{`}`}",
+                                      "{a:`}", ",", "(", ")", "=", "{{{a}}}", "{{a}", "{a}}", "}{", "\t", "{a\nb}", "{a:\nb}"]
+INTERP_WRAPS = [('f"', '"'), ("f'", "'"), ('s"', '"'), ("s'", "'"), ('f"""', '"""'), ("s'''", "'''"), ('f""', ''), ("s''", "")]
+INTERP_CORPUS = ['f"a{b.c:>5}d{{e}}"', 's"x {`a b`.c} y"', 'f"{a"', 'f"}"', "f'''a'{b}''c'''", 'f"{a}{b}"', 'f""', 'f"{a:}"', 'f"{\u00e9}"', 'f"{ a}"', 's"{a.}"', 's"{a.b.}"',
+                 's"{.a}"', 'f"{{"', 'f"}}"', 'f"{{{{"', 'f"{{{"', 'f"{}"', 'f"{a}}"', 'f"{{a}"', 's"SELECT {a} FROM {b.c} WHERE {`x y`:z}"', 'f"\\u{7b}a}"', 'f"{a\\x7d"', 'f"{a:\\u{7d}}"',
+                 's"{a:b:c}"', 's"{a:{b}"', 's"{`a`}"', 's"{``}"', 's"{`a"', 's"{a`b`}"', 's"{a.`b`}"', 's"{1a}"', 's"{_1}"', 's"{a-b}"', 'f"{a} {a}"', 'f" "', 'f"\u4e2d{\u4e2d}\u4e2d"', 's"{a.b.c.d.e}"']
+
+
+def interp_sources(rng, n_exh, n_rand):
+    """sources that are one s-/f-string: the corpus, all contents of length <= n_exh over INTERP_ALPHABET in f"..", seeded random longer
+    contents in every wrapping (single / triple quotes of both kinds, the empty even-quoted string)"""
+    out = list(INTERP_CORPUS)
+    for k in range(0, n_exh + 1):
+        for t in itertools.product(INTERP_ALPHABET, repeat=k):
+            out.append('f"' + "".join(t) + '"')
+    for _ in range(n_rand):
+        a, b = rng.choice(INTERP_WRAPS)
+        out.append(a + "".join(rng.choice(INTERP_FRAGMENTS) for _ in range(rng.randint(1, 8))) + b)
+    seen, res = set(), []
+    for s in out:
+        if s not in seen:
+            seen.add(s)
+            res.append(s)
+    return res
+
+
+_SPAN = None
+
+
+def impl_interp(ans):
+    """harness `pl` answer for a source that is one s-/f-string -> ("err",) | ("ok", prefix, [items]) | ("other", why)
+    items: ("IString", text) | ("IExpr", (parts..), start, end, format|None) with start/end relative to the content (the parser adds
+    token start + 2)"""
+    import re
+    if "err" in ans:
+        return ("err",)
+    if "ok" not in ans:
+        return ("other", json.dumps(ans)[:200])
+    st = ans["ok"].get("stmts", [])
+    if len(st) != 1 or "VarDef" not in st[0]:
+        return ("other", "not a single main expression")
+    v = st[0]["VarDef"].get("value") or {}
+    key = "FString" if "FString" in v else "SString" if "SString" in v else None
+    if key is None:
+        return ("other", "main is not an s-/f-string: %s" % list(v)[:3])
+    items = []
+    for it in v[key]:
+        if "String" in it:
+            items.append(("IString", it["String"]))
+        elif "Expr" in it:
+            e = it["Expr"]["expr"]
+            m = re.fullmatch(r"\d+:(\d+)-(\d+)", e.get("span") or "")
+            if "Ident" not in e or not m:
+                return ("other", "unexpected Expr item %s" % json.dumps(it)[:200])
+            items.append(("IExpr", tuple(e["Ident"]), int(m.group(1)) - 2, int(m.group(2)) - 2, it["Expr"].get("format")))
+        else:
+            return ("other", "unexpected item %s" % json.dumps(it)[:200])
+    return ("ok", "f" if key == "FString" else "s", items)
+
+
+def model_interp(v):
+    """parse_term value of `run_interp T s` -> None (not comparable) | ("err",) | ("ok", prefix, items, extents)"""
+    if v == "None":
+        return None
+    c, r = v[1]
+    if r == "None":
+        return ("err",)
+    items, ext = [], []
+    for it, (a, b) in r[1]:
+        if it[0] == "IString":
+            items.append(("IString", _s(it[1])))
+        else:
+            items.append(("IExpr", tuple(_s(p) for p in it[1]), it[2], it[3], None if it[4] == "None" else _s(it[4][1])))
+        ext.append((a, b))
+    return ("ok", chr(c), items, ext)
